@@ -510,6 +510,27 @@ pub fn main(args: &Args) {
     } else {
         vec![]
     };
+    // structured large types: deep single-constructor nests, wide tuples / argument lists / bound
+    // lists with the parameter in the last position
+    let mut extra_deep = extra_deep;
+    for d in [6usize, 8, 12, 16, 33] {
+        for (open, close) in [("Vec<", ">"), ("&", ""), ("[", "; 2]"), ("Option<Box<", ">>"), ("(", ",)"), ("fn(", ") -> u8"), ("*const ", "")] {
+            let text = format!("{}T{}", open.repeat(d), close.repeat(d));
+            extra_deep.push(g(&text, T));
+            let text = format!("{}foo::T{}", open.repeat(d), close.repeat(d));
+            extra_deep.push(g(&text, 0));
+        }
+    }
+    for w in [5usize, 8, 12, 13, 17, 33] {
+        let fill = vec!["u8"; w - 1].join(", ");
+        extra_deep.push(g(&format!("({fill}, U)"), U));
+        extra_deep.push(g(&format!("(X, {fill})"), X));
+        extra_deep.push(g(&format!("fn({fill}, T) -> U"), T | U));
+        extra_deep.push(g(&format!("Foo<{fill}, X>"), X));
+        let bounds = vec!["Send"; w - 1].join(" + ");
+        extra_deep.push(g(&format!("Box<dyn {bounds} + Tr<T>>"), T));
+        extra_deep.push(g(&format!("a::b::c::d::e::f::g::H<{fill}, U>"), U));
+    }
     let n_types = tys.len() + extra_deep.len();
     let tl = tys
         .par_chunks(256)
